@@ -232,6 +232,17 @@ end
 (* ---------------- manager domain: the faithful model of EntityManager (tier B of C02/C03/C05/C07/C09/C11/C12/C13) ---- *)
 module Mg = struct
   open Manager
+  (* an UNCHECKED entry point through the null handle (or any handle whose id lies far beyond the tables) indexes the tables out of
+     bounds in the model (Err OobIndex) as in the code (undefined behaviour); the extracted model would first convert the id,
+     2^30 - 1, to a unary natural number and overflow the runner's stack: the same answer is given here without that conversion *)
+  let step st o =
+    let far h = int_of_n (fst h) >= 16777216 in
+    match o with
+    | OAssign (_, h, _, _, _) when far h && st.lockc = O -> Err OobIndex
+    | ORemove (_, h, _, false) when far h && st.lockc = O -> Err OobIndex
+    | OAssignShared (h, _, _) when far h -> Err OobIndex
+    | OBuild (_, Some h, _, _) when far h && st.lockc = O -> Err OobIndex
+    | _ -> Manager.step st o
   let issued : (coq_N * coq_N) list ref = ref []
   let sid_of : (int, int) Hashtbl.t = Hashtbl.create 4
   let next_sid = ref 0
